@@ -1382,6 +1382,13 @@ static Chunk *insert_vbrace(Chunk *pc, bool after, const ParsingFrame &frm)
       ref = ref->GetNext();
    }
 
+   // Don't back into a disabled region: stay behind the newline that ends its last line
+   if (  ref->Is(CT_IGNORED)
+      && ref->GetNext()->IsNewline())
+   {
+      ref = ref->GetNext();
+   }
+
    if (ref->IsNullChunk())
    {
       return(Chunk::NullChunkPtr);
